@@ -282,3 +282,30 @@ func ConfirmStuckP(filter func() []Goroutine, apart time.Duration, progress func
 	}
 	return Signature(ra) == Signature(rb) && AllBlockedOnChannels(rb), b
 }
+
+// WaitOrStuck decides a promptness or capacity probe without trusting the
+// wall clock: it waits for done; after `first` it asks whether the goroutines
+// of interest are provably parked for good (two dumps `apart`, no progress).
+// "done": the awaited thing happened; "stuck": it provably never will while
+// the probe holds its bodies; "slow": neither within max (a loaded machine),
+// which is no verdict.
+func WaitOrStuck(done <-chan struct{}, first, apart, max time.Duration, filter func() []Goroutine, progress func() int64) string {
+	select {
+	case <-done:
+		return "done"
+	case <-time.After(first):
+	}
+	end := time.Now().Add(max)
+	for time.Now().Before(end) {
+		stuck, _ := ConfirmStuckP(filter, apart, progress)
+		select {
+		case <-done:
+			return "done"
+		default:
+		}
+		if stuck {
+			return "stuck"
+		}
+	}
+	return "slow"
+}
